@@ -201,4 +201,17 @@ theorem lock_discipline :
     getTemplatesCallers = [] := by
   decide +kernel
 
+open Goflow.Generated in
+/-- The per-exporter maps of the pipe and of the producer only grow: no function deletes from them or assigns them as
+    a whole — a template or sampling system, once published for an exporter, stays the exporter's system (what C16's
+    `nothing_lost` assumes of the code around the get-or-create protocol). -/
+theorem maps_only_grow :
+    lockEvents.all (fun f => f.2.all (fun e =>
+      !((e.1 == "delete" || e.1 == "assign") && (e.2.1 == "p.templates" || e.2.1 == "p.sampling")))) = true ∧
+    ((lockEvents.filter (fun f => f.2.any (fun e => e.1 == "store" && e.2.1 == "p.templates"))).map (·.1) =
+      ["utils/pipe.go:NetFlowPipe.DecodeFlow"]) ∧
+    ((lockEvents.filter (fun f => f.2.any (fun e => e.1 == "store" && e.2.1 == "p.sampling"))).map (·.1) =
+      ["producer/proto/proto.go:ProtoProducer.getSamplingRateSystem"]) := by
+  decide +kernel
+
 end Goflow.C15Locks
